@@ -169,10 +169,8 @@ mod verif {
                     .generic_names
                     .iter()
                     .map(|n| {
-                        bind.get(n).map_or_else(
-                            || json!({"k": "generic", "name": interner.resolve(*n).unwrap()}),
-                            sub,
-                        )
+                        // an unbound generic parameter of a compound is the bottom type
+                        bind.get(n).map_or_else(|| json!({"k": "unknown"}), sub)
                     })
                     .collect();
                 let fields: Value = if depth == 0 {
